@@ -8,12 +8,28 @@ Clause decided: the enumeration helper treats the sign of the step.
      step Python's exclusive bound needs ``stop - 1``.
  R2  the two-argument form is only used when the step is absent (== 1).
  R3  consumers (call graph): who enumerates iterations through the helper.
-Not decided: num_iterations / normalized / iteration_number / iteration_index
-formulas (arithmetic).
+ R4  trip count: on every path of ``LoopRange.num_iterations`` the returned
+     formula is, as a formula, ``floor((stop - start + step) / step)`` (``step``
+     absent: ``stop - start + 1``); ``normalized`` is ``(1, num_iterations)``.
+ R5  ``iteration_number(x)`` is ``floor((x - start + step) / step)``.
+ R6  ``iteration_index(k)`` is ``start + (k - 1) * step``.
+ R4-R6 compare *formulas*: each returned expression (loki constructor trees,
+ Python integer arithmetic on ``.value``, or a mix) is extracted per path into a
+ "polynomial + rounded quotient" normal form (sa/ratform.py) and rewritten only
+ by sound identities (floor absorbs integer addends; ``-floor(x) = ceil(-x)``;
+ truncation is floor where the quotient is non-negative, which a non-empty loop
+ guarantees for ``(stop - start) / step``; ceil is turned into floor only under a
+ guard on the sign of the step).  A formula that is not the DO-loop formula is
+ reported together with a concrete (start, stop, step) on which the two
+ *formulas* differ; a formula outside the normal form is an analysis error.
+ The same forms decide a ``range(start, E, step)`` whose end is computed from a
+ trip count (R1): ``E`` must be ``start + step * floor((stop - start + step) /
+ step)`` for *all* integers, including empty loops.
 """
 import ast
 
 from sa import exprs as X
+from sa import ratform as RF
 from sa.model import AnalysisError
 from sa.mutate import Mutant
 
@@ -21,11 +37,15 @@ PROP = 'C10'
 
 META = dict(
     technique='syntactic value analysis of range(...) constructions from LoopRange fields: inclusive-bound adjustment constant vs '
-              'control dependence on the step sign; call-graph listing of consumers',
-    level='Decides one necessary condition: enumerating a DO range with Python range() needs a stop adjustment whose sign follows '
-          'the step; a constant +1 with an arbitrary step loses the last iteration of every descending loop. Does NOT decide the '
-          'iteration-count / index formulas.',
-    note='Only range() calls in loki/expression/symbolic.py whose arguments derive from a LoopRange parameter are judged.',
+              'control dependence on the step sign; per-path extraction of the trip-count / iteration-number / iteration-index '
+              'formulas into polynomial + rounded-quotient normal forms compared with the DO-loop formulas by sound rewriting; '
+              'call-graph listing of consumers',
+    level='Decides (a) that enumerating a DO range with Python range() adjusts the inclusive bound according to the sign of the '
+          'step, or derives the end from the floor trip count, and (b) that the four symbolic helpers return, on every path, a '
+          'formula identical to the DO-loop formula. Does NOT decide the arithmetic performed later by simplify() or by the '
+          'evaluation mapper on those formulas.',
+    note='Only range() calls in loki/expression/symbolic.py whose arguments derive from a LoopRange parameter are judged. A formula '
+         'the normal form cannot express is an analysis error (exit 2), never a violation.',
     ref='DESIGN.md section 3, C10',
 )
 
@@ -67,6 +87,301 @@ def stop_adjustments(fnode):
                 facts['non_unit_adjustment'] = ast.unparse(stop.right)
         out.append((call, ok, facts))
     return out
+
+
+# ------------------------------------------------------------------------------------------------ formula rules (R4-R6, R1 ext)
+SYMS = 'loki/expression/symbols.py'
+
+
+def _paths(fnode):
+    """[(return expr, env, conds)] for every path through if/else structure; env maps names to defining expressions, conds
+    is [(test node, polarity)].  Conditional expressions on the right of an assignment fork the path."""
+    out = []
+
+    def rec(stmts, env, conds):
+        """returns the list of (env, conds) states that fall through"""
+        states = [(env, conds)]
+        for st in stmts:
+            nxt = []
+            for env_, conds_ in states:
+                if isinstance(st, ast.Return):
+                    out.append((st.value, env_, conds_, st))
+                elif isinstance(st, ast.Raise):
+                    pass
+                elif isinstance(st, ast.If):
+                    nxt += rec(st.body, dict(env_), conds_ + [(st.test, True)])
+                    nxt += rec(st.orelse, dict(env_), conds_ + [(st.test, False)])
+                elif isinstance(st, ast.Assign) and len(st.targets) == 1:
+                    tg, vl = st.targets[0], st.value
+                    if isinstance(tg, ast.Name) and isinstance(vl, ast.IfExp):
+                        for branch, pol in ((vl.body, True), (vl.orelse, False)):
+                            e2 = dict(env_)
+                            e2[tg.id] = _inline(branch, env_, tg.id)
+                            nxt.append((e2, conds_ + [(vl.test, pol)]))
+                    elif isinstance(tg, ast.Name):
+                        e2 = dict(env_)
+                        e2[tg.id] = _inline(vl, env_, tg.id)
+                        nxt.append((e2, conds_))
+                    elif isinstance(tg, ast.Tuple) and isinstance(vl, ast.Tuple) and len(tg.elts) == len(vl.elts) and \
+                            all(isinstance(t_, ast.Name) for t_ in tg.elts):
+                        e2 = dict(env_)
+                        for t_, v_ in zip(tg.elts, vl.elts):
+                            e2[t_.id] = _inline(v_, env_, t_.id)
+                        nxt.append((e2, conds_))
+                    else:
+                        raise RF.NotNormal(f'assignment `{ast.unparse(st)[:60]}`')
+                elif isinstance(st, ast.AugAssign) and isinstance(st.target, ast.Name):
+                    e2 = dict(env_)
+                    e2[st.target.id] = _inline(ast.BinOp(left=ast.Name(id=st.target.id, ctx=ast.Load()), op=st.op, right=st.value),
+                                               env_, None)
+                    nxt.append((e2, conds_))
+                elif isinstance(st, (ast.Expr, ast.Assert, ast.Pass)):
+                    nxt.append((env_, conds_))
+                else:
+                    raise RF.NotNormal(f'statement `{ast.unparse(st)[:60]}`')
+            states = nxt
+        return states
+
+    rec(fnode.body, {}, [])
+    return out
+
+
+def _inline(expr, env, self_name):
+    """the expression with the names already bound on this path substituted (so later re-assignment cannot change it)"""
+    class Sub(ast.NodeTransformer):
+        def visit_Name(self, n):
+            if isinstance(n.ctx, ast.Load) and n.id in env:
+                return env[n.id]
+            return n
+    import copy
+    return Sub().visit(copy.deepcopy(expr))
+
+
+class _Site:
+    """atoms and guards of one function that takes a LoopRange (``rp``) and optionally an index (``xp``)"""
+
+    def __init__(self, fnode, rp, xp):
+        self.fnode, self.rp, self.xp = fnode, rp, xp
+        self.idcalls = set()
+        for a_ in ast.walk(fnode):
+            if isinstance(a_, ast.Assign) and isinstance(a_.value, ast.Call) and (X.dotted_attr(a_.value.func) or '').endswith('EvaluationMapper'):
+                self.idcalls |= {t_.id for t_ in a_.targets if isinstance(t_, ast.Name)}
+
+    def atom_of(self, n):
+        if isinstance(n, ast.Attribute) and n.attr in ('start', 'stop', 'step') and isinstance(n.value, ast.Name) and n.value.id == self.rp:
+            return n.attr
+        if isinstance(n, ast.Name) and n.id == self.xp:
+            return 'x'
+        return None
+
+    def extractor(self, env):
+        return RF.Extractor(self.atom_of, env, identity_calls=self.idcalls)
+
+    def facts(self, env, conds):
+        """(step_none, sign, subst): what the path conditions establish"""
+        ex = self.extractor(env)
+        step_none, sign, subst = None, None, []
+
+        def atom(e):
+            try:
+                f = ex.form(e)
+            except RF.NotNormal:
+                return None
+            if f.pure and len(f.p0) == 1:
+                (k, v), = f.p0.items()
+                if len(k) == 1 and v == 1:
+                    return k[0]
+            return None
+
+        def one(t, pol):
+            nonlocal step_none, sign
+            if isinstance(t, ast.UnaryOp) and isinstance(t.op, ast.Not):
+                return one(t.operand, not pol)
+            if isinstance(t, ast.BoolOp) and isinstance(t.op, ast.And) and pol:
+                for v in t.values:
+                    one(v, True)
+                return
+            if isinstance(t, ast.BoolOp) and isinstance(t.op, ast.Or) and not pol:
+                for v in t.values:
+                    one(v, False)
+                return
+            if isinstance(t, ast.Compare) and len(t.ops) == 1:
+                l, op, r = t.left, t.ops[0], t.comparators[0]
+                if isinstance(r, ast.Constant) and r.value is None and isinstance(op, (ast.Is, ast.IsNot)) and atom(l) == 'step':
+                    step_none = (isinstance(op, ast.Is) == pol)
+                    return
+                if isinstance(r, ast.Constant) and isinstance(r.value, int) and r.value is not True and r.value is not False:
+                    a = atom(l)
+                    if a == 'step' and r.value == 0 and isinstance(op, (ast.Lt, ast.Gt, ast.LtE, ast.GtE)):
+                        # step is non-zero by the property's quantifier
+                        neg = isinstance(op, (ast.Lt, ast.LtE)) == pol
+                        sign = -1 if neg else 1
+                        return
+                    if a is not None and isinstance(op, ast.Eq) and pol:
+                        subst.append((a, r.value))
+                        return
+        for t, pol in conds:
+            one(t, pol)
+        return step_none, sign, subst
+
+
+def _do_sequence(start, stop, step):
+    n = max((stop - start + step) // step, 0)
+    return [start + k * step for k in range(n)]
+
+
+def _nonempty_domain(sign, step_none, with_x):
+    steps = [1] if step_none else [s_ for s_ in (-3, -2, -1, 1, 2, 3) if sign in (None, (1 if s_ > 0 else -1))]
+    for start in range(-3, 6):
+        for stop in range(-3, 6):
+            for step in steps:
+                seq = _do_sequence(start, stop, step)
+                if not seq:
+                    continue
+                env = {'start': start, 'stop': stop, 'step': step}
+                if with_x == 'index':
+                    for x in seq:
+                        yield dict(env, x=x)
+                elif with_x == 'number':
+                    for x in range(1, len(seq) + 1):
+                        yield dict(env, x=x)
+                else:
+                    yield env
+
+
+def _spec(which, step_none):
+    P = RF
+    start, stop, step, x = P.P_atom('start'), P.P_atom('stop'), (P.P_const(1) if step_none else P.P_atom('step')), P.P_atom('x')
+    if which == 'count':
+        num = P.P_add(P.P_add(stop, start, -1), step)
+        return RF.Form(num) if step_none else RF.Form({}, [(P.P_const(1), 'floor', num, step)])
+    if which == 'number':
+        num = P.P_add(P.P_add(x, start, -1), step)
+        return RF.Form(num) if step_none else RF.Form({}, [(P.P_const(1), 'floor', num, step)])
+    if which == 'index':
+        return RF.Form(P.P_add(P.P_mul(P.P_add(x, P.P_const(-1)), step), start))
+    raise KeyError(which)
+
+
+def _nonneg_licence(q, d):
+    """q/d >= 0 on every non-empty loop (x a visited index): q = (stop - start | x - start) + k*step, k >= 0, d = step"""
+    if not RF.P_eq(d, RF.P_atom('step')):
+        return False
+    for base in (RF.P_add(RF.P_atom('stop'), RF.P_atom('start'), -1), RF.P_add(RF.P_atom('x'), RF.P_atom('start'), -1)):
+        diff = RF.P_add(q, base, -1)
+        if not diff or (set(diff) == {('step',)} and diff[('step',)] >= 0):
+            return True
+    return False
+
+
+def formula_rule(ctx, rule, fn, relpath, rp, xp, which, with_x):
+    """every return path of ``fn`` yields the DO-loop formula ``which``"""
+    site = _Site(fn.node, rp, xp)
+    try:
+        paths = _paths(fn.node)
+    except RF.NotNormal as e:
+        raise AnalysisError(f'C10 {rule}: {fn.name}: control flow outside the path enumeration ({e})')
+    n = 0
+    for expr, env, conds, st in paths:
+        branches = [(expr, conds)]
+        if isinstance(expr, ast.IfExp):
+            branches = [(expr.body, conds + [(expr.test, True)]), (expr.orelse, conds + [(expr.test, False)])]
+        for e_, conds_ in branches:
+            n += 1
+            step_none, sign, subst = site.facts(env, conds_)
+            inst = f'{fn.name}:return@{"+".join(("" if p_ else "not ") + ast.unparse(t_)[:40] for t_, p_ in conds_) or "always"}'
+            where = f'{relpath}:{st.lineno}'
+            try:
+                cand = site.extractor(env).form(e_)
+            except RF.NotNormal as err:
+                raise AnalysisError(f'C10 {rule}: {fn.name} ({where}): returned formula outside the normal form: {err}')
+            spec = _spec(which, bool(step_none))
+            for a_, v_ in subst:
+                spec, cand = RF.F_subst(spec, a_, v_), RF.F_subst(cand, a_, v_)
+            unknown = RF.F_atoms(cand) - {'start', 'stop', 'step', 'x'}
+            if unknown or (step_none and 'step' in RF.F_atoms(cand)):
+                raise AnalysisError(f'C10 {rule}: {fn.name} ({where}): formula over unexpected atoms {sorted(unknown) or ["step (None)"]}')
+            sign_of = (lambda d, s_=sign: s_ if RF.P_eq(d, RF.P_atom('step')) else None)
+            cc = RF.canonical(cand, nonneg=_nonneg_licence, sign_of=sign_of)
+            cs = RF.canonical(spec, nonneg=_nonneg_licence, sign_of=sign_of)
+            facts = {'formula': cand.show(), 'canonical': cc.show(), 'do_loop_formula': cs.show(),
+                     'path': [("" if p_ else "not ") + ast.unparse(t_) for t_, p_ in conds_]}
+            if RF.F_same(cc, cs):
+                ctx.judge(rule, inst, facts=facts)
+                continue
+            dom = [dict(d_, **dict(subst)) for d_ in _nonempty_domain(sign, bool(step_none), with_x)
+                   if all(d_.get(a_) == v_ for a_, v_ in subst)]
+            cex = RF.counterexample(cand, spec, dom, None)
+            if cex is None:
+                raise AnalysisError(f'C10 {rule}: {fn.name} ({where}): `{cand.show()}` is not the canonical form `{cs.show()}` and no '
+                                    f'small counterexample separates them: undecided')
+            envx, got, want = cex
+            facts['counterexample'] = {'values': envx, 'formula_gives': got, 'do_loop_gives': want}
+            loop = f"DO i={envx['start']},{envx['stop']}" + ('' if step_none else f",{envx['step']}")
+            xs = f" with {'index' if with_x == 'index' else 'iteration number'} {envx['x']}" if with_x else ''
+            ctx.violation(rule, f'{fn.name}:{which}-formula', where,
+                          f'on the path [{", ".join(facts["path"]) or "always"}] the returned formula `{cand.show()}` is not the DO-loop '
+                          f'formula `{cs.show()}`: for {loop}{xs} it gives {got} instead of {want}', facts=facts, instance=inst)
+    return n
+
+
+def range_from_count(ctx, fn, relpath, rp):
+    """R1 extension: ``range(a, E, s)`` whose end is not an adjusted inclusive bound must satisfy, as formulas,
+    a = start, s = step, E = start + step*floor((stop - start + step)/step) -- for all integers (empty loops included)."""
+    site = _Site(fn.node, rp, None)
+    try:
+        paths = _paths(fn.node)
+    except RF.NotNormal:
+        return 0          # the guard-based analysis above has judged the calls
+    n = 0
+    for expr, env, conds, st in paths:
+        if not (isinstance(expr, ast.Call) and isinstance(expr.func, ast.Name) and expr.func.id == 'range' and len(expr.args) == 3):
+            continue
+        ex = site.extractor(env)
+        try:
+            a, e_, s_ = (ex.form(x_) for x_ in expr.args)
+        except RF.NotNormal as err:
+            raise AnalysisError(f'C10 R1: {fn.name} ({relpath}:{st.lineno}): range() argument outside the normal form: {err}')
+        if e_.pure and RF.P_atoms(e_.p0) <= {'stop'}:
+            continue          # `stop + k`: the guard-based rule
+        n += 1
+        step_none, sign, _ = site.facts(env, conds)
+        inst = f'{fn.name}:range-end-from-count@{"+".join(("" if p_ else "not ") + ast.unparse(t_)[:40] for t_, p_ in conds) or "always"}'
+        where = f'{relpath}:{st.lineno}'
+        stepP = RF.P_const(1) if step_none else RF.P_atom('step')
+        num = RF.P_add(RF.P_add(RF.P_atom('stop'), RF.P_atom('start'), -1), stepP)
+        spec_e = RF.Form(RF.P_atom('start'), [(stepP, 'floor', num, stepP)]) if not step_none else RF.Form(RF.P_add(RF.P_atom('stop'), RF.P_const(1)))
+        sign_of = (lambda d, s__=sign: s__ if RF.P_eq(d, RF.P_atom('step')) else None)
+        ce = RF.canonical(e_, sign_of=sign_of)
+        facts = {'range': ast.unparse(expr), 'start': a.show(), 'end': e_.show(), 'end_canonical': ce.show(), 'step': s_.show(),
+                 'required_end': RF.canonical(spec_e, sign_of=sign_of).show()}
+        if a.pure and RF.P_eq(a.p0, RF.P_atom('start')) and s_.pure and RF.P_eq(s_.p0, stepP) and \
+                RF.F_same(ce, RF.canonical(spec_e, sign_of=sign_of)):
+            ctx.judge('R1', inst, facts=facts)
+            continue
+        cex = None
+        for start in range(-3, 6):
+            for stop in range(-3, 6):
+                for step in ([1] if step_none else [x_ for x_ in (-3, -2, -1, 1, 2, 3) if sign in (None, 1 if x_ > 0 else -1)]):
+                    envx = {'start': start, 'stop': stop, 'step': step}
+                    try:
+                        got = list(range(RF.evaluate(a, envx), RF.evaluate(e_, envx), RF.evaluate(s_, envx)))
+                    except (ZeroDivisionError, KeyError, ValueError):
+                        continue
+                    want = _do_sequence(start, stop, step)
+                    if got != want and cex is None:
+                        cex = (envx, got, want)
+        if cex is None:
+            raise AnalysisError(f'C10 R1: {fn.name} ({where}): range end `{e_.show()}` is not the canonical trip-count form and no small '
+                                f'counterexample separates them: undecided')
+        envx, got, want = cex
+        facts['counterexample'] = {'values': envx, 'range_gives': got, 'do_loop_visits': want}
+        ctx.violation('R1', f'{fn.name}:range-end-from-count', where,
+                      f'`{ast.unparse(expr)}`: the end `{e_.show()}` is not `start + step*floor((stop - start + step)/step)`: for '
+                      f"DO i={envx['start']},{envx['stop']},{envx['step']} the range yields {got}, the loop visits {want}",
+                      facts=facts, instance=inst)
+    return n
+
 
 
 def run(ctx):
@@ -116,7 +431,53 @@ def run(ctx):
                 ok = any('step is None' in g for g in guards)
                 (ctx.judge('R2', inst, facts={'guards': guards}) if ok else
                  ctx.violation('R2', f'{fn.name}:range-without-step', where, 'two-argument range() used although a step may be present'))
-    ctx.floor('R1', 'range() constructions from LoopRange', n, 2)
+    ctx.floor('R1', 'range() constructions from LoopRange', n, 1)
+    # ---- formulas
+    ctx.rule('R4', 'LoopRange.num_iterations returns floor((stop - start + step)/step) on every path; normalized is (1, num_iterations)')
+    ctx.rule('R5', 'iteration_number(x) returns floor((x - start + step)/step) on every path')
+    ctx.rule('R6', 'iteration_index(k) returns start + (k - 1)*step on every path')
+    for fn in mod.functions.values():
+        params = [a.arg for a in fn.node.args.args]
+        lr = [p for p in params if 'range' in p.lower()]
+        if lr and any(isinstance(x_, ast.Call) and isinstance(x_.func, ast.Name) and x_.func.id == 'range' for x_ in ast.walk(fn.node)):
+            range_from_count(ctx, fn, mod.relpath, lr[0])
+    LR = m.get_class(SYMS, 'LoopRange')
+    ni = LR.function('num_iterations') if LR else None
+    nz = LR.function('normalized') if LR else None
+    f_num, f_idx = mod.functions.get('iteration_number'), mod.functions.get('iteration_index')
+    if not (ni and nz and f_num and f_idx):
+        raise AnalysisError('C10: LoopRange.num_iterations / normalized / iteration_number / iteration_index vanished')
+    k4 = formula_rule(ctx, 'R4', ni, SYMS, 'self', None, 'count', None)
+    # normalized: LoopRange((1, self.num_iterations)) -- lower 1, upper the trip count, unit stride
+    rets = [r_ for r_ in ast.walk(nz.node) if isinstance(r_, ast.Return) and r_.value is not None]
+    for r_ in rets:
+        k4 += 1
+        v_ = r_.value
+        tup = v_.args[0] if isinstance(v_, ast.Call) and (X.dotted_attr(v_.func) or '').endswith('LoopRange') and v_.args and \
+            isinstance(v_.args[0], (ast.Tuple, ast.List)) else None
+        if tup is None:
+            raise AnalysisError(f'C10 R4: LoopRange.normalized ({SYMS}:{r_.lineno}) does not return a LoopRange((...)) literal')
+        ex = RF.Extractor(lambda n_: 'n' if isinstance(n_, ast.Attribute) and n_.attr == 'num_iterations' and isinstance(n_.value, ast.Name)
+                          and n_.value.id == 'self' else None)
+        try:
+            forms = [ex.form(x_) for x_ in tup.elts]
+        except RF.NotNormal as err:
+            raise AnalysisError(f'C10 R4: LoopRange.normalized ({SYMS}:{r_.lineno}): bound outside the normal form: {err}')
+        want = [RF.Form(RF.P_const(1)), RF.Form(RF.P_atom('n'))]
+        ok = len(forms) in (2, 3) and all(RF.F_same(RF.canonical(a_), b_) for a_, b_ in zip(forms[:2], want)) and \
+            (len(forms) == 2 or RF.F_same(forms[2], RF.Form(RF.P_const(1))))
+        facts = {'bounds': [f_.show() for f_ in forms]}
+        (ctx.judge('R4', 'LoopRange.normalized', facts=facts) if ok else
+         ctx.violation('R4', 'LoopRange.normalized:bounds', f'{SYMS}:{r_.lineno}',
+                       f'the normalised range is ({", ".join(f_.show() for f_ in forms)}) instead of (1, num_iterations): it does not '
+                       f'have the trip count of the loop', facts=facts, instance='LoopRange.normalized'))
+    k5 = formula_rule(ctx, 'R5', f_num, mod.relpath, [a.arg for a in f_num.node.args.args][1], [a.arg for a in f_num.node.args.args][0],
+                      'number', 'index')
+    k6 = formula_rule(ctx, 'R6', f_idx, mod.relpath, [a.arg for a in f_idx.node.args.args][1], [a.arg for a in f_idx.node.args.args][0],
+                      'index', 'number')
+    ctx.floor('R4', 'return paths of num_iterations / normalized', k4, 4)
+    ctx.floor('R5', 'return paths of iteration_number', k5, 2)
+    ctx.floor('R6', 'return paths of iteration_index', k6, 2)
     # consumers
     users = []
     import os
@@ -134,6 +495,38 @@ def run(ctx):
 
 
 MUTANTS = [
+    Mutant('count-drops-plus-one', SYMS, "        return Sum((Quotient(Sum((stop, Product((-1, start)))), step), IntLiteral(1)))",
+           "        return Quotient(Sum((stop, Product((-1, start)))), step)", expect=('R4', 'count-formula'), quick=True),
+    Mutant('count-ceil-fold-for-literals', SYMS, "        return Sum((Quotient(Sum((stop, Product((-1, start)))), step), IntLiteral(1)))",
+           "        if all(isinstance(b, IntLiteral) for b in (start, stop, step)):\n            return IntLiteral(-(-(stop.value - start.value + 1) // step.value))\n"
+           "        return Sum((Quotient(Sum((stop, Product((-1, start)))), step), IntLiteral(1)))", expect=('R4', 'count-formula')),
+    Mutant('neutral-count-single-quotient', SYMS, "        return Sum((Quotient(Sum((stop, Product((-1, start)))), step), IntLiteral(1)))",
+           "        return Quotient(Sum((stop, Product((-1, start)), step)), step)", expect=None),
+    Mutant('neutral-count-floor-fold-for-literals', SYMS, "        return Sum((Quotient(Sum((stop, Product((-1, start)))), step), IntLiteral(1)))",
+           "        if all(isinstance(b, IntLiteral) for b in (start, stop, step)):\n            return IntLiteral((stop.value - start.value) // step.value + 1)\n"
+           "        return Sum((Quotient(Sum((stop, Product((-1, start)))), step), IntLiteral(1)))", expect=None),
+    Mutant('unit-count-off-by-one', SYMS, "            return stop if isinstance(start, IntLiteral) and start.value == 1 else Sum(",
+           "            return stop if isinstance(start, IntLiteral) and start.value == 0 else Sum(", expect=('R4', 'count-formula')),
+    Mutant('normalized-from-zero', SYMS, "        return LoopRange((1, self.num_iterations))", "        return LoopRange((0, self.num_iterations))",
+           expect=('R4', 'LoopRange.normalized:bounds')),
+    Mutant('number-sign-of-start', FILE, "            (sym.Quotient(sym.Sum((iter_idx, -loop_range.start)), loop_range.step),",
+           "            (sym.Quotient(sym.Sum((iter_idx, loop_range.start)), loop_range.step),", expect=('R5', 'number-formula')),
+    Mutant('number-unit-branch-no-offset', FILE, "        expr = sym.Sum((sym.Sum((iter_idx, -loop_range.start)), sym.IntLiteral(1)))",
+           "        expr = sym.Sum((iter_idx, -loop_range.start))", expect=('R5', 'number-formula')),
+    Mutant('index-offset-sign', FILE, "        expr = sym.Sum((sym.Product((sym.Sum((iter_num, sym.IntLiteral(-1))), loop_range.step)),",
+           "        expr = sym.Sum((sym.Product((sym.Sum((iter_num, sym.IntLiteral(1))), loop_range.step)),", expect=('R6', 'index-formula')),
+    Mutant('index-step-not-applied', FILE, "        expr = sym.Sum((sym.Product((sym.Sum((iter_num, sym.IntLiteral(-1))), loop_range.step)),\n                    loop_range.start))",
+           "        expr = sym.Sum((iter_num, sym.IntLiteral(-1), loop_range.start))", expect=('R6', 'index-formula')),
+    Mutant('neutral-index-expanded', FILE, "        expr = sym.Sum((sym.Product((sym.Sum((iter_num, sym.IntLiteral(-1))), loop_range.step)),\n                    loop_range.start))",
+           "        expr = sym.Sum((sym.Product((iter_num, loop_range.step)), -loop_range.step, loop_range.start))", expect=None),
+    Mutant('range-end-from-truncated-count', FILE,
+           "    if step < 0:\n        # Descending loop: the (inclusive) bound is the smallest value\n        return range(LEM(loop_range.start), ceil(LEM(loop_range.stop))-1, step)\n    return range(LEM(loop_range.start), floor(LEM(loop_range.stop))+1, step)",
+           "    start = LEM(loop_range.start)\n    return range(start, start + (int((LEM(loop_range.stop) - start) / step) + 1) * step, step)",
+           expect=('R1', 'range-end-from-count')),
+    Mutant('neutral-range-end-from-floor-count', FILE,
+           "    if step < 0:\n        # Descending loop: the (inclusive) bound is the smallest value\n        return range(LEM(loop_range.start), ceil(LEM(loop_range.stop))-1, step)\n    return range(LEM(loop_range.start), floor(LEM(loop_range.stop))+1, step)",
+           "    start = LEM(loop_range.start)\n    return range(start, start + ((LEM(loop_range.stop) - start) // step + 1) * step, step)",
+           expect=None),
     Mutant('descending-branch-removed', FILE,
            "    if step < 0:\n        # Descending loop: the (inclusive) bound is the smallest value\n        return range(LEM(loop_range.start), ceil(LEM(loop_range.stop))-1, step)\n",
            "", expect=('R1', 'range-stop-adjustment'), quick=True),
